@@ -21,6 +21,7 @@ import PsVerif
 #print axioms PsVerif.measurements_eq
 #print axioms PsVerif.more_sensors_injective
 #print axioms PsVerif.independent_rows_injective
+#print axioms PsVerif.qr_picks_nonzero_of_rank
 -- C03
 #print axioms PsVerif.qr_greedy_max
 #print axioms PsVerif.gram_state_nonneg
@@ -30,6 +31,8 @@ import PsVerif
 #print axioms PsVerif.zero_pick_all_zero
 #print axioms PsVerif.ccqr_nocost_eq_qr
 #print axioms PsVerif.gqr_unconstrained_eq_qr
+#print axioms PsVerif.sspor_lead_eq_optimizer
+#print axioms PsVerif.householder_step_refines_schur
 -- C04
 #print axioms PsVerif.candScores_noMask
 #print axioms PsVerif.ccqr_score_exact
@@ -43,6 +46,7 @@ import PsVerif
 #print axioms PsVerif.predetermined_split
 #print axioms PsVerif.maxN_count_le
 #print axioms PsVerif.exactN_count_eq
+#print axioms PsVerif.sspor_selection_eq_optimizer
 -- C06
 #print axioms PsVerif.gqr_own_class_max
 #print axioms PsVerif.gqr_inactive_eq_qr
